@@ -264,6 +264,64 @@ def confirm_in_fresh_process(pid: str, path: str, times: int = 3) -> int:
     return n
 
 
+# --------------------------------------------------------------------------- coverage-guided tier
+
+def _run_fuzz(pid: str, prop, seed: int) -> dict:
+    """libFuzzer (atheris) over the property's own Hypothesis strategy via fuzz_one_input; the oracle is the property's
+    check inside the target (eqlv/fuzz.py).  Half of the processes start from an empty corpus, half from a few random
+    buffers.  Campaigns are only approximately reproducible (-seed); the reproducible unit is the JSON case written by
+    the target.  Scratch directories live outside /repo and /verif and are removed afterwards."""
+    import random
+    import shutil
+    import tempfile
+    procs, runs = prop.FUZZ
+    try:
+        subprocess.run([sys.executable, "-c", "import atheris"], check=True, capture_output=True,
+                       env={**os.environ, "PYTHONPATH": VERIF_DIR + os.pathsep + os.path.join(VERIF_DIR, ".deps")})
+    except Exception:
+        return {"skipped": "atheris is not importable (run ./setup.sh)", "failures": []}
+    scratch = tempfile.mkdtemp(prefix="eqlv_fuzz_")
+    t0 = time.time()
+    try:
+        ps = []
+        for i in range(procs):
+            corpus = os.path.join(scratch, f"corpus{i}")
+            out = os.path.join(scratch, f"out{i}")
+            os.makedirs(corpus)
+            os.makedirs(out)
+            if i % 2 == 1:
+                r = random.Random(seed * 100 + i)      # corpus seeding only; never used inside a property
+                for j in range(12):
+                    with open(os.path.join(corpus, f"seed{j}"), "wb") as fh:
+                        fh.write(bytes(r.getrandbits(8) for _ in range(r.choice([256, 512, 1024, 2048]))))
+            cmd = [sys.executable, "-m", "eqlv.fuzz", pid, out, f"-runs={runs}", f"-seed={seed * 100 + i + 1}",
+                   "-max_len=4096", "-len_control=0", f"-artifact_prefix={out}/", corpus]
+            ps.append((out, subprocess.Popen(cmd, cwd=VERIF_DIR, stdout=subprocess.DEVNULL, stderr=subprocess.DEVNULL,
+                                             env={**os.environ, "PYTHONHASHSEED": "0", "PYTHONPATH": VERIF_DIR + os.pathsep +
+                                                  os.path.join(VERIF_DIR, ".deps")})))
+        cases = nontrivial = 0
+        failures = []
+        for out, p in ps:
+            p.wait()
+            for name in os.listdir(out):
+                path = os.path.join(out, name)
+                if name.startswith("counters-"):
+                    with open(path) as fh:
+                        c = json.load(fh)
+                    cases += c["cases"]
+                    nontrivial += c["nontrivial"]
+                elif name.startswith("atheris-"):
+                    with open(path) as fh:
+                        d = json.load(fh)
+                    failures.append({"case": d["case"], "kind": d["kind"], "detail": d["detail"],
+                                     "features": d.get("features", []), "origin": "atheris"})
+        return {"engine": "atheris/libFuzzer over fuzz_one_input", "processes": procs, "runs_per_process": runs,
+                "cases_executed": cases, "nontrivial_cases": nontrivial, "wall_s": round(time.time() - t0, 1),
+                "failures": failures}
+    finally:
+        shutil.rmtree(scratch, ignore_errors=True)
+
+
 # --------------------------------------------------------------------------- driver
 
 def run_property(pid: str, tier: str, seed: int) -> int:
@@ -322,6 +380,14 @@ def run_property(pid: str, tier: str, seed: int) -> int:
                 merged["samples"][k] = v
         merged["failures"].extend(r["failures"])
 
+    # ---- coverage-guided tier (thorough only, properties that declare FUZZ) ------------
+    fuzz_report = None
+    if tier == "thorough" and hasattr(prop, "FUZZ") and not os.environ.get("EQLV_NO_FUZZ"):
+        fuzz_report = _run_fuzz(pid, prop, seed)
+        for f in fuzz_report.pop("failures"):
+            f["bucket"] = f["kind"]
+            merged["failures"].append(f)
+
     # ---- confirm and report failures (deduplicated by bucket) -----------------------
     found_dir = os.path.join(os.environ.get("EQLV_FOUND_DIR") or os.path.join(VERIF_DIR, "found"), pid)
     seen_buckets = set()
@@ -374,6 +440,8 @@ def run_property(pid: str, tier: str, seed: int) -> int:
         "wall_s": round(wall, 2),
         "violations": len(confirmed),
     }
+    if fuzz_report is not None:
+        evidence["coverage"]["coverage_guided"] = fuzz_report
     if hasattr(prop, "EXHAUSTIVE_NOTE"):
         evidence["coverage"]["exhaustive_slice"] = prop.EXHAUSTIVE_NOTE.get(tier, "")
     if not os.environ.get("EQLV_NO_EVIDENCE"):
